@@ -654,6 +654,7 @@ class Node(object):
         reneging_individual.queue_size_at_departure = self.number_of_individuals
         reneging_individual.exit_date = self.now
         self.write_reneging_record(reneging_individual)
+        self.reset_class_change(reneging_individual)
         self.reset_individual_attributes(reneging_individual)
         self.simulation.statetracker.change_state_renege(self, next_node, reneging_individual, False)
         next_node.accept(reneging_individual, completed=False)
